@@ -689,14 +689,120 @@ func hexStrings(c *seq.Ctx) {
 	}
 }
 
+// refB64: what an unpadded standard-alphabet base64 text denotes (CR and LF are ignored, as the
+// standard library's decoder documents); ok=false if the text is not such a text.
+func refB64(s string) ([]byte, bool) {
+	const std = "ABCDEFGHIJKLMNOPQRSTUVWXYZabcdefghijklmnopqrstuvwxyz0123456789+/"
+	var sx []int
+	for i := 0; i < len(s); i++ {
+		if s[i] == '\r' || s[i] == '\n' {
+			continue
+		}
+		k := strings.IndexByte(std, s[i])
+		if k < 0 {
+			return nil, false
+		}
+		sx = append(sx, k)
+	}
+	if len(sx)%4 == 1 {
+		return nil, false
+	}
+	out := make([]byte, 0, len(sx)*6/8)
+	acc, nb := 0, 0
+	for _, k := range sx {
+		acc = acc<<6 | k
+		nb += 6
+		if nb >= 8 {
+			nb -= 8
+			out = append(out, byte(acc>>uint(nb)))
+			acc &= 1<<uint(nb) - 1
+		}
+	}
+	return out, true
+}
+
+// base64Texts: every text up to the length bound over an alphabet with payload characters, padding,
+// url-alphabet characters, blanks and line breaks, scanned as string and as []byte
+func base64Texts(c *seq.Ctx) {
+	alpha := []byte("QUg/+9=\n\r -_")
+	maxLen := 5
+	if !c.Quick() {
+		maxLen = 6
+	}
+	check := func(txt string) {
+		want, ok := refB64(txt)
+		for vi, v := range []interface{}{txt, []byte(txt)} {
+			var y tex.Base64Bytes
+			err := y.Scan(v)
+			class, bad, sig := "err", "", ""
+			if err == nil {
+				class = "ok"
+				if !ok {
+					bad, sig = fmt.Sprintf("Base64Bytes.Scan(%q as %T) = %v but the text is no unpadded base64 text", txt, v, []byte(y)), "Base64Bytes accepts junk"
+				} else if string(y) != string(want) {
+					bad, sig = fmt.Sprintf("Base64Bytes.Scan(%q as %T) = %v, the text denotes %v", txt, v, []byte(y), want), "Base64Bytes mis-decodes"
+				}
+			} else if ok && !strings.ContainsAny(txt, "\r\n") {
+				bad, sig = fmt.Sprintf("Base64Bytes.Scan(%q as %T) fails (%v) on a well-formed text denoting %v", txt, v, err, want), "Base64Bytes refuses its own form"
+			}
+			c.Case(fmt.Sprintf("b64/%d/%s", vi, class), bad, sig, func() interface{} { return map[string]interface{}{"text": txt, "as": fmt.Sprintf("%T", v)} })
+		}
+	}
+	var rec func(pre string, n int)
+	rec = func(pre string, n int) {
+		if c.Expired() {
+			return
+		}
+		check(pre)
+		if n == 0 {
+			return
+		}
+		for _, ch := range alpha {
+			rec(pre+string(ch), n-1)
+		}
+	}
+	rec("", maxLen)
+	// long wrapped texts: 76-column line breaks as MIME encoders emit them
+	for n := 0; n <= 130; n++ {
+		raw := make([]byte, n)
+		for i := range raw {
+			raw[i] = byte(i*37 + n)
+		}
+		v, _ := tex.Base64Bytes(raw).Value()
+		enc := v.(string)
+		for _, w := range []int{1, 3, 4, 76} {
+			var sb strings.Builder
+			for i := 0; i < len(enc); i += w {
+				e := i + w
+				if e > len(enc) {
+					e = len(enc)
+				}
+				sb.WriteString(enc[i:e])
+				sb.WriteString("\r\n")
+			}
+			check(sb.String())
+		}
+	}
+	var y tex.Base64Bytes
+	for _, v := range []interface{}{nil, 5, int64(5), 1.5, true, []int{1}} {
+		err := y.Scan(v)
+		bad := ""
+		if err == nil {
+			bad = fmt.Sprintf("Base64Bytes.Scan(%T) succeeds", v)
+		}
+		c.Case("b64/other-type", bad, "Base64Bytes accepts a non-text value", func() interface{} { return fmt.Sprintf("%T", v) })
+	}
+}
+
 func main() {
 	r := ev.Start("C20")
-	r.Rule("round trips over boundary value sets through the types' own methods, encoding/json and jsoniter; exact-or-error: every string up to the stated length over the alphabet \" 0 1 9 2 5 6 - + . e / space x that json.Valid accepts, plus special long-digit / junk tokens, fed to every UnmarshalJSON and compared with an arbitrary-precision reading of the token; distinct = (decoder, token class, outcome class)")
+	r.Rule("round trips over boundary value sets through the types' own methods, encoding/json and jsoniter; exact-or-error: every string up to the stated length over the alphabet \" 0 1 9 2 5 6 - + . e / space x that json.Valid accepts, plus special long-digit / junk tokens, fed to every UnmarshalJSON and compared with an arbitrary-precision reading of the token; every text up to length 5 (quick) / 6 (thorough) over payload / padding / url-alphabet / blank / CR / LF characters plus line-wrapped encodings of 0..130 bytes scanned into Base64Bytes as string and as []byte against a bitwise reference decoder; distinct = (decoder, token class, outcome class)")
 	r.Assume("a token 'denotes' an integer iff it is a quoted [+-]?digits string or an integral bare JSON number; an empty string may decode to zero; null may be a no-op")
 	maxLen := r.Pick(6, 7)
 	fams := []seq.Family{
 		{Name: "roundtrip", Run: roundTrips},
 		{Name: "hex-strings", Run: hexStrings},
+		{Name: "base64-texts", Run: base64Texts},
 	}
 	for i := range intDecoders {
 		d := &intDecoders[i]
